@@ -370,6 +370,7 @@ def samemodel_rule(P, R):
 def run(P, R, tier):
     K = KN.get(P)
     samemodel_rule(P, R)
+    stepmix_rule(P, R)
     usereset_rule(P, R)
     models_rule(P, R)
     bind_rule(P, R, K)
@@ -609,3 +610,65 @@ def run(P, R, tier):
             R.violation("C02.total", inst, "; ".join(probs), file=fn["file"], line=fn["line"], function=fn["q"])
         else:
             R.ok("C02.total", inst, "clears %s, one unconditional loop over all components" % tot.split("::")[-1])
+
+
+def stepmix_rule(P, R):
+    """"... equals the amount before the step plus exactly what the REACTION stoichiometry and mixing fractions add": a multi-step batch
+    reaction or RUN_CELLS cell starts step 1 from the solutions / the MIX it is defined by; with INCREMENTAL_REACTIONS every later step
+    continues from the result of the step before, without INCREMENTAL_REACTIONS every step starts from the definition again.  The step
+    drivers decide this with the local `use_mix` they hand to run_reactions.  The decision is run concretely for
+    incremental_reactions in {FALSE, TRUE} x reaction_step in {1, 2, 3}: use_mix must be TRUE exactly when the step starts from the
+    definition.  (An incremental step that mixes again discards what the earlier steps added.)"""
+    from .. import minieval as ME
+    RULE = "C02.stepmix"
+    R.rule(RULE, "step drivers mix the defining solutions again exactly when the step starts from the definition (incremental_reactions FALSE, or step 1)", minimum=12)
+    n = 0
+    for k, g in sorted(P.functions.items(), key=lambda kv: kv[1]["q"]):
+        sites = [c for c in T.calls(g["body"]) if T.callee_name(c) == "run_reactions" and len(c[4]) >= 3 and T.is_node(T.strip_casts(c[4][2]))
+                 and T.strip_casts(c[4][2])[0] == "Ref" and T.strip_casts(c[4][2])[3] == "use_mix" and T.strip_casts(c[4][2])[2] == "local"]
+        if not sites:
+            continue
+        if not any(y[0] == "Member" and y[2] == "Phreeqc::reaction_step" for y in T.walk(g["body"])):
+            continue
+        # statements that decide use_mix, outermost first
+        stmts = []
+
+        def rec(node):
+            if not T.is_node(node):
+                return
+            w = [1 for t, how, line, x in T.writes(node) if T.is_node(T.strip_casts(t)) and T.strip_casts(t)[0] == "Ref" and T.strip_casts(t)[3] == "use_mix"]
+            if node[0] == "If" and w and not any(y[0] in ("Call", "For", "While") for br in (node[3], node[4]) if T.is_node(br) for y in T.walk(br)):
+                stmts.append(node)          # a pure decision: both branches only assign
+                return
+            if node[0] == "Bin" and node[2] == "=" and w:
+                stmts.append(node)
+                return
+            for ch in T.children(node):
+                rec(ch)
+        rec(g["body"])
+        if not stmts:
+            R.anchor_missing(RULE, "%s: no statement assigns use_mix" % g["q"])
+            continue
+        name = g["q"].split("::")[-1]
+        for inc in (0, 1):
+            for step in (1, 2, 3):
+                n += 1
+                inst = "%s:inc=%d,step=%d" % (name, inc, step)
+                env = ME.Env(scalars={"incremental_reactions": inc, "reaction_step": step})
+                try:
+                    for st in stmts:
+                        ME.run(st, env)
+                except ME.Unsupported as e:
+                    R.anchor_missing(RULE, "%s: the use_mix decision is not evaluable (%s)" % (g["q"], e))
+                    break
+                got = env.var.get("use_mix")
+                want = 1 if (inc == 0 or step == 1) else 0
+                if got == want:
+                    R.ok(RULE, inst, "use_mix = %s" % ("TRUE" if got else "FALSE"))
+                else:
+                    R.violation(RULE, inst, "%s hands use_mix = %s to run_reactions for incremental_reactions = %s, step %d: %s" % (
+                        g["q"], got, "TRUE" if inc else "FALSE", step,
+                        "the step mixes the defining solutions again and discards what the earlier steps added" if got else "the step does not start from the defining solutions"),
+                        file=g["file"], line=stmts[0][1], function=g["q"])
+    if n < 12:
+        R.anchor_missing(RULE, "only %d evaluations (reactions and run_as_cells expected)" % n)
